@@ -32,14 +32,77 @@ def full_dump(m):
     return json.dumps(out, sort_keys=True, default=str)
 
 
-def worker(prop_name, seeds):
+VARIANTS = (dict(), dict(preserve_caller_saved_registers=True), dict(clobbers_flags=True, clobbers_registers={"rax", "rcx"}),
+            dict(align_stack=True), dict(scratch_registers=2))
+
+
+def run_variant(case, perm_seed=None):
+    """apply() with patches that carry constraints (chosen by the patch text), the modifications registered in the given order or in
+    a permutation that keeps the relative order of modifications at the same offset of the same block.  Returns (error, dump)."""
+    import random
+
+    import gtirb_rewriting
+    B = irgen.build(case)
+    ctx = gtirb_rewriting.RewritingContext(B.m, B.fobjs)
+
+    def mk(text):
+        kw = VARIANTS[sum(map(ord, text)) % len(VARIANTS)]
+
+        @gtirb_rewriting.patch_constraints(**kw)
+        def patch(c, *scratch):
+            return text
+        return gtirb_rewriting.Patch.from_function(patch)
+    order = list(range(len(case.mods)))
+    if perm_seed is not None:
+        rnd = random.Random(perm_seed)
+        keys = [(m[0], m[2]) for m in case.mods]
+        shuffled = order[:]
+        rnd.shuffle(shuffled)
+        # the k-th modification of a location keeps its rank among the modifications of that location
+        slots = {}
+        for n in order:
+            slots.setdefault(keys[n], []).append(n)
+        taken = {k: 0 for k in slots}
+        order = []
+        for n in shuffled:
+            k = keys[n]
+            order.append(slots[k][taken[k]])
+            taken[k] += 1
+    for n in order:
+        irgen.register(case, B, ctx, mk, only={n})
+    try:
+        ctx.apply()
+    except Exception as e:   # noqa
+        return type(e).__name__, None
+    return None, full_dump(B.m)
+
+
+def split_shape(shape, size):
+    """split_byte_interval on a fresh interval with blocks (offset, size, is_code); the grouping as a hashable value"""
+    import gtirb
+    from gtirb_rewriting.intervalutils import split_byte_interval
+    ir = gtirb.IR()
+    m = gtirb.Module(name="m", isa=gtirb.Module.ISA.X64, file_format=gtirb.Module.FileFormat.ELF)
+    m.ir = ir
+    sec = gtirb.Section(name=".text")
+    sec.module = m
+    bi = gtirb.ByteInterval(address=0x1000, size=size, contents=bytes(size))
+    bi.section = sec
+    for off, sz, code in shape:
+        b = (gtirb.CodeBlock if code else gtirb.DataBlock)(offset=off, size=sz)
+        b.byte_interval = bi
+    parts = split_byte_interval(bi)
+    return tuple(sorted((p.address, p.size, tuple(sorted((b.offset, b.size, isinstance(b, gtirb.CodeBlock)) for b in p.blocks))) for p in parts))
+
+
+def worker(prop_name, seeds, perm=None):
     """Run in a subprocess with its own PYTHONHASHSEED: one line per seed."""
     import importlib
     prop = importlib.import_module("harness." + prop_name).PROP
     for sd in seeds:
         case = prop.make_case(sd)
-        r = irgen.run_impl(case, want_model_line=False)
-        print(json.dumps([sd, r["error"], None if r["error"] else full_dump(r["built"].m)]))
+        err, dump = run_variant(case, None if perm is None else perm + sd)
+        print(json.dumps([sd, err, dump]))
 
 
 class C11(IRProp):
@@ -51,8 +114,11 @@ class C11(IRProp):
     trusted_base = IRProp.base_trusted + ["CPython's hash randomisation is exercised, not modelled: the seed sweep is the only check of iteration-order independence"]
     assumptions = []
     level_rule = ("the IR correspondence cases, plus the order resolve_offsets returns for every block compared with the model's stable sort; "
-                  "every case re-run in fresh interpreters under PYTHONHASHSEED 0, 1, 7, 12345 and twice in one interpreter")
-    oracle_text = "full output dump (bytes, blocks, symbols incl. temporary label names, edges, function tables, aux tables) identical across hash seeds and repeated runs"
+                  "every case (its patches carrying constraints: register preservation, scratch registers, stack alignment) re-run in fresh interpreters under "
+                  "PYTHONHASHSEED 0, 1, 7, 12345, twice under one seed, and twice with the modifications registered in a permuted order that keeps "
+                  "the order of modifications at one location")
+    oracle_text = ("full output dump (bytes, blocks, symbols incl. temporary label names, edges, function tables, aux tables) identical across hash seeds, "
+                   "repeated runs and permutations of the registration order of modifications that target different locations")
 
     # ---- correspondence: full-state tie + the order of application
     def correspondence(self, tier, ctx):
@@ -87,25 +153,51 @@ class C11(IRProp):
         return res
 
     def oracle(self, tier, ctx, boosted):
-        n = {"quick": 60, "thorough": 600}["thorough" if boosted else tier]
+        n = {"quick": 250, "thorough": 2500}["thorough" if boosted else tier]
         seeds = self.seeds("thorough" if boosted else tier, self.tag + "-det")[:n]
         dumps = {}
-        for hs in self.hashseeds + (self.hashseeds[0],):
+        runs_ = [(hs, None) for hs in self.hashseeds + (self.hashseeds[0],)] + [(self.hashseeds[0], 1000), (self.hashseeds[1], 2000)]
+        procs = []
+        for hs, perm in runs_:
             env = dict(os.environ, PYTHONHASHSEED=hs, PYTHONPATH="/repo/src:" + C.VERIF)
-            p = subprocess.run([sys.executable, "-c", f"import sys; sys.path.insert(0, '/repo/tests'); from harness.c11 import worker; worker('c11', {seeds!r})"],
-                               capture_output=True, text=True, env=env, cwd=C.VERIF, timeout=3000)
+            procs.append((hs, perm, subprocess.Popen([sys.executable, "-c", f"import sys; sys.path.insert(0, '/repo/tests'); from harness.c11 import worker; worker('c11', {seeds!r}, {perm!r})"],
+                                                     stdout=subprocess.PIPE, stderr=subprocess.PIPE, text=True, env=env, cwd=C.VERIF)))
+        for hs, perm, p in procs:
+            so, se = p.communicate(timeout=3000)
             if p.returncode != 0:
-                raise RuntimeError("determinism worker failed: " + p.stderr[-400:])
-            dumps.setdefault(hs, []).append({json.loads(l)[0]: json.loads(l)[1:] for l in p.stdout.splitlines() if l.startswith("[")})
+                raise RuntimeError("determinism worker failed: " + se[-400:])
+            dumps.setdefault((hs, perm), []).append({json.loads(l)[0]: json.loads(l)[1:] for l in so.splitlines() if l.startswith("[")})
         bads = []
-        ref = dumps[self.hashseeds[0]][0]
-        for hs, runs in dumps.items():
+        ref = dumps[(self.hashseeds[0], None)][0]
+        for (hs, perm), runs in dumps.items():
             for run in runs:
                 for sd in seeds:
                     if run.get(sd) != ref.get(sd):
-                        bads.append(dict(what=f"seed {sd}: output under PYTHONHASHSEED={hs} differs from PYTHONHASHSEED={self.hashseeds[0]}",
-                                         input={"seed": sd, "hashseeds": [self.hashseeds[0], hs]}, finding=None))
-        return dict(evaluations=len(seeds) * (len(self.hashseeds) + 1), violations=bads[:10],
+                        if perm is None:
+                            bads.append(dict(what=f"seed {sd}: output under PYTHONHASHSEED={hs} differs from PYTHONHASHSEED={self.hashseeds[0]}",
+                                             input={"seed": sd, "hashseeds": [self.hashseeds[0], hs]}, finding=None))
+                        else:
+                            bads.append(dict(what=f"seed {sd}: registering the modifications in another order (same order per location) changes the output: "
+                                                  f"{str(run.get(sd))[:200]} vs {str(ref.get(sd))[:200]}",
+                                             input={"seed": sd, "permutation_seed": perm + sd}, finding=None))
+        # fresh UUIDs: the grouping of blocks at one offset must not follow the iteration order of the interval's block set
+        tie_cases = 0
+        rnd = C.rng(self.tag + "-ties")
+        for _ in range({"quick": 60, "thorough": 600}["thorough" if boosted else tier]):
+            shape = [(0, rnd.randint(1, 3), True)]
+            o = shape[0][1]
+            for _k in range(rnd.randint(1, 3)):
+                if rnd.random() < 0.6:
+                    shape.append((o, 0, rnd.random() < 0.5))
+                sz = rnd.randint(1, 3)
+                shape.append((o, sz, rnd.random() < 0.5))
+                o += sz
+            seen = {split_shape(shape, o) for _r in range(12)}
+            tie_cases += 1
+            if len(seen) != 1:
+                bads.append(dict(what=f"split_byte_interval groups the blocks {shape} in {len(seen)} different ways over 12 runs with fresh UUIDs: {sorted(seen)[:2]}",
+                                 input={"blocks": shape}, finding=None))
+        return dict(evaluations=len(seeds) * (len(self.hashseeds) + 3) + tie_cases, violations=bads[:10],
                     samples=[{"oracle": self.oracle_text, "hashseeds": list(self.hashseeds), "cases": len(seeds)}])
 
 
